@@ -429,7 +429,10 @@ impl Prop for C10 {
         } else {
             None
         };
-        Scn { idle_gap, cfg, trace, probe: vec![], via_analyzer: via, schedules: (0..n_sched).map(|_| r.next_u64()).collect(), iters: tier.pick(8, 20), sched: if tier == Tier::Thorough && r.chance(1, 4) { Sched::Pct(r.urange(2, 3)) } else { Sched::Random } }
+        // (a pause is explored under the random scheduler only: under PCT the dispatcher's wait for the queues to
+        // drain spins to its cap while low-priority workers starve, and one scenario then costs a minute of CPU)
+        let sched = if tier == Tier::Thorough && idle_gap.is_none() && r.chance(1, 4) { Sched::Pct(r.urange(2, 3)) } else { Sched::Random };
+        Scn { idle_gap, cfg, trace, probe: vec![], via_analyzer: via, schedules: (0..n_sched).map(|_| r.next_u64()).collect(), iters: tier.pick(8, 20), sched }
     }
 
     fn run(s: &Scn, st: &mut RunStats) -> Result<(), Violation> {
